@@ -109,7 +109,73 @@ def op : P Op := do
   | "sockev" => do let b ← bool; pure (.sockev b)
   | _ => failure
 
-def scenario : P (State × List Op) := do
+/-- what a scenario line may contain besides the stimuli of `Op`: *unit-level* probes that the harness applies to
+    the real objects in the same way — forcing a watcher's status (an unreachable state) and calling one watcher
+    method directly.  They are not part of `Op`: the theorems about `run` do not quantify over them; they only
+    widen the differential test of the individual functions (guards first of all). -/
+inductive DOp where
+  | op (o : Op)
+  | poke (name : String) (st : Status)
+  | call (name : String) (fn : String)
+
+def status : P Status := do
+  let t ← tok
+  match t with
+  | "stopped" => pure .stopped
+  | "starting" => pure .starting
+  | "active" => pure .active
+  | "stopping" => pure .stopping
+  | _ => failure
+
+def dop : P DOp := fun toks =>
+  match toks with
+  | "poke" :: rest => (do let n ← str; let st ← status; pure (DOp.poke n st)) rest
+  | "call" :: rest => (do let n ← str; let f ← tok; pure (DOp.call n f)) rest
+  | _ => (do let o ← op; pure (DOp.op o)) toks
+
+/-- a direct call of a watcher method, run like a stimulus: the coroutine gets a top-level future whose only
+    callback reports an escaping exception; then the loop runs to quiescence -/
+def callFn (u : Nat) (fn : String) : M Unit := do
+  let co (c : Call) : M Unit := do
+    let tid ← newTop [.watch]
+    exec fuelDefault (.call c (.top tid))
+    armTop tid
+  match fn with
+  | "manage" => co (.manageProcesses u)
+  | "start" => co (.start_ u)
+  | "stop" => co (.stop_ u false)
+  | "spawns" => co (.spawnProcesses u)
+  | "kills" => co (.killProcesses u none none)
+  | "reaps" => reapProcesses u
+  | "spawn1" => do
+    let r ← spawnProcess (exec fuelDefault) u
+    match r with
+    | .raised e => emit (.raised e)
+    | _ => pure ()
+  | _ => pure ()
+
+def stepD (d : DOp) : M Unit :=
+  match d with
+  | .op o => stepM o
+  | .poke name st => do
+    let s0 ← getS
+    if s0.blocked then pure () else
+    updK Kernel.beginStep
+    let r ← lookupWatcher (pyLower name)
+    match r with
+    | some u => setStatus u st
+    | none => emit (.raised "NoWatcher")
+  | .call name fn => do
+    let s0 ← getS
+    if s0.blocked then pure () else
+    updK Kernel.beginStep
+    let r ← lookupWatcher (pyLower name)
+    match r with
+    | some u => callFn u fn
+    | none => emit (.raised "NoWatcher")
+    stepTail
+
+def scenario : P (State × List DOp) := do
   expect "A"
   let aw ← nat
   expect "W"
@@ -120,15 +186,15 @@ def scenario : P (State × List Op) := do
   let bs ← rep nb behav
   expect "O"
   let no ← nat
-  let ops ← rep no op
+  let ops ← rep no dop
   let s := initState ws bs aw
   pure (s, ops)
 
-def runOps (s : State) : List Op → List String
+def runOps (s : State) : List DOp → List String
   | [] => []
   | o :: os =>
     let n := s.log.length
-    let s' := step s o
+    let s' := (stepD o s).2
     let lines := (s'.log.drop n).map showObs
     (";;".intercalate (lines ++ [snapshot s'])) :: runOps s' os
 
